@@ -263,6 +263,28 @@ func (g *G) planIgnored(p *planner, n int, targets []string) {
 		p.take(t, it, j) // reserved: nobody else may set what the dropped update names
 	}
 	p.update(j, t, mine, true, false)
+	// aftermath: a claim made BEFORE the dropped update must survive it — half of the time a later plugin
+	// collides with an item the first plugin set (an item the dropped update does not name): conflict expected
+	if j < n-1 && g.r.Intn(3) != 0 {
+		g.aftermath++ // walk through every updatable item kind in turn, then random ones
+		cand := append([]Item{updatableItems[g.aftermath%len(updatableItems)]}, g.randomItems(updatableItems, 4)...)
+		for _, z := range cand {
+			named := false
+			for _, it := range mine {
+				if it == z {
+					named = true
+				}
+			}
+			if named || !p.free(t, z) {
+				continue
+			}
+			p.take(t, z, i)
+			p.update(i, t, []Item{z}, false, false)
+			k := j + 1 + g.r.Intn(n-j-1)
+			p.update(k, t, []Item{z}, false, false)
+			break
+		}
+	}
 }
 
 func (g *G) planUpdate(stream string, id string, poolSize int, kind Item) *Case {
@@ -465,7 +487,7 @@ func driveAdapt(c *hx.Ctx) error {
 		}
 		c.Eval(string(js), nontrivial)
 		// implementation-only oracle of C03: the generator on the combined reply vs plugin by plugin
-		if cs.Combined != nil && !reflect.DeepEqual(canonSpec(cs.Combined), canonSpec(cs.Sequent)) {
+		if cs.Combined != nil && wfCreate(cs.Resps) && !reflect.DeepEqual(canonSpec(cs.Combined), canonSpec(cs.Sequent)) {
 			c.ImplFail("adapt", "C03: applying the combined adjustment differs from applying the plugins' adjustments in turn", cs)
 		}
 	}
@@ -582,4 +604,41 @@ func loadCorpus() ([]*Case, error) {
 		out = append(out, &cs)
 	}
 	return out, nil
+}
+
+// wfCreate is the Go twin of Proofs/CombineWf.v's wf_create (the domain of C03): the key left after stripping one
+// removal marker is not itself marked, a plain env name has no '=', the command line is neither the bare
+// removal marker nor begins with it twice.
+func wfCreate(resps []nm.Response) bool {
+	keyOK := func(k string) bool { return !(len(k) >= 2 && k[0] == '-' && k[1] == '-') }
+	for _, r := range resps {
+		a := r.Adjust
+		if a == nil {
+			continue
+		}
+		for _, e := range a.Ann {
+			if !keyOK(e.K) {
+				return false
+			}
+		}
+		for _, m := range a.Mounts {
+			if !keyOK(m.Dest) {
+				return false
+			}
+		}
+		for _, d := range a.Devices {
+			if !keyOK(d.Path) {
+				return false
+			}
+		}
+		for _, e := range a.Env {
+			if !keyOK(e.K) || (!strings.HasPrefix(e.K, "-") && strings.Contains(e.K, "=")) {
+				return false
+			}
+		}
+		if len(a.Args) > 0 && a.Args[0] == "" && (len(a.Args) == 1 || a.Args[1] == "") {
+			return false
+		}
+	}
+	return true
 }
